@@ -38,6 +38,8 @@ pub enum Srv {
     SendThenFailWrites(Vec<u8>),
     /// send a heartbeat every `ms` milliseconds and nothing else (a timeout must be configured)
     HeartbeatsOnly(u64),
+    /// think for this many milliseconds before going on
+    Pause(u64),
     Eof,
     Reset,
     /// say nothing (a timeout must be configured)
@@ -308,6 +310,7 @@ pub fn run_script(o: &Opts, s: &Script, props: &FieldTable, seg: Segmenter, wfra
                     h.with(|st| st.fail_write_from = Some((st.write_calls, ErrorKind::ConnectionReset)));
                     h.inject(b.clone());
                 }
+                Srv::Pause(ms) => std::thread::sleep(Duration::from_millis(*ms)),
                 Srv::HeartbeatsOnly(ms) => {
                     // the broker is alive (it keeps sending heartbeats) but never gets round to
                     // answering; runs until the client gives up or a generous bound has passed
@@ -557,6 +560,34 @@ pub fn run(rc: &mut RunCtx) {
         }
         let wfrag = (*r.pick(&[usize::MAX, usize::MAX, 1, 3, 8, 50]), r.usize(0, 4));
         run_script(&o, &s, &props, seg, wfrag, &mut res);
+        rc.end(res);
+    }
+    // a broker that takes its time over every step, each time less than the timeout, all
+    // steps together more: it is never silent for the length of the timeout, so it connects;
+    // and a timeout so large that it cannot be added to the clock
+    for (i, (t, pause)) in [(900u64, 500u64), (u64::MAX, 0)].iter().enumerate() {
+        let id = if *t == u64::MAX { "huge-timeout".to_string() } else { format!("slow-steps:{}", t) };
+        if !rc.mine(&id) {
+            continue;
+        }
+        rc.begin_with_timeout(&id, Duration::from_secs(60));
+        let mut res = CaseResult::new(id);
+        let mut r = Rng::for_case(seed, 16, 889_000 + i as u64);
+        let o = Opts { auth: 0, user: "u".into(), pass: "p".into(), locale: "en_US".into(), vhost: "/".into(), information: None, timeout_ms: Some(*t), channel_max: 0, frame_max: 0, heartbeat: 0 };
+        let props = server_props(&mut r);
+        let s = Script {
+            steps: [
+                vec![Srv::Pause(*pause), Srv::Send(start_frame("PLAIN", "en_US", &props), "Start")],
+                vec![Srv::Pause(*pause), Srv::Send(tune_frame(0, 131072, 60), "Tune")],
+                vec![Srv::Pause(*pause), Srv::Send(open_ok_frame(), "OpenOk")],
+            ],
+            expect: "Ok".into(),
+            alt: vec![],
+            label: if *t == u64::MAX { "complete handshake, connection_timeout of u64::MAX milliseconds".into() } else { format!("every step after {} ms, connection_timeout {} ms", pause, t) },
+        };
+        res.sig = crate::rng::fnv_str(&s.label);
+        res.sample = Some(json!({"server": s.label, "expect": s.expect}));
+        run_script(&o, &s, &props, Segmenter::Whole, (usize::MAX, 0), &mut res);
         rc.end(res);
     }
     // a connection_timeout between one and two heartbeat intervals, server silent after Tune:
